@@ -39,7 +39,7 @@ func runC17(c *Ctx) {
 		}
 		var insts []inst
 		for i := 0; i < ninst; i++ {
-			cfg := Cfg{ProtoTime: c.rng.Bool(), ProtoArrays: c.rng.Bool(), WithNull: c.rng.Bool(), WithJSON: c.rng.Bool(), WithBQ: c.rng.Bool()}
+			cfg := Cfg{ProtoTime: c.rng.Bool(), ProtoArrays: c.rng.Bool(), WithNull: c.rng.Bool(), WithJSON: c.rng.Bool(), WithBQ: c.rng.Bool(), WithCustom: c.rng.Bool()}
 			insts = append(insts, inst{cfg, newInstance(cfg)})
 		}
 		steps := 6 + c.rng.Intn(10)
@@ -62,6 +62,11 @@ func runC17(c *Ctx) {
 				t = reflect.TypeOf(JSONHolder{})
 			case !usePkg && cfg.WithNull && c.rng.Chance(40):
 				t = reflect.TypeOf(WithNull{})
+			case !usePkg && cfg.WithCustom && c.rng.Chance(50):
+				t = reflect.TypeOf(Custom{})
+			case c.rng.Chance(25):
+				// encodes differently on an instance with the int64 override, identically elsewhere
+				t = reflect.TypeOf(CustomPlain{})
 			case c.rng.Chance(30):
 				t = reflect.TypeOf(Named{})
 			case c.rng.Chance(30):
@@ -93,6 +98,16 @@ func runC17(c *Ctx) {
 				tc := newTypeCase(reflect.TypeOf(WithNull{}), in.cfg)
 				tc.P = in.p
 				c.addBuild(tc, "", fmt.Sprintf("instances h%d inst=%d unregistered-null", h, i), "unregistered-null")
+			}
+			// the tag "zz" exists only where it was registered - also for named types of that kind
+			for _, t := range []reflect.Type{reflect.TypeOf(Custom{}), reflect.TypeOf(NStr(""))} {
+				tc := newTypeCase(t, in.cfg)
+				tc.P = in.p
+				tag := ""
+				if t.Kind() == reflect.String {
+					tag = "zz"
+				}
+				c.addBuild(tc, tag, fmt.Sprintf("instances h%d inst=%d custom-tag", h, i), fmt.Sprintf("custom-tag-%v", in.cfg.WithCustom))
 			}
 		}
 	}
